@@ -150,6 +150,21 @@ class _Normalise(ast.NodeTransformer):
         self.generic_visit(new)
         return new
 
+    def visit_JoinedStr(self, node):
+        """f-string -> FSTR(part, part, ...) with literal parts numbered like any literal."""
+        parts = []
+        for v in node.values:
+            if isinstance(v, ast.Constant):
+                parts.append(self.visit_Constant(v))
+            elif isinstance(v, ast.FormattedValue):
+                if v.format_spec is not None or v.conversion != -1:
+                    raise ShapeError("f-string with format spec / conversion")
+                parts.append(self.visit(v.value))
+            else:
+                raise ShapeError("unexpected f-string part")
+        return ast.copy_location(
+            ast.Call(func=ast.Name(id="FSTR", ctx=ast.Load()), args=parts, keywords=[]), node)
+
     def visit_Constant(self, node):
         if node.value is None or isinstance(node.value, bool):
             return node
@@ -212,6 +227,18 @@ MODELLED = {
         1: "en_bulk_code", 4: "en_single_fmt", 8: "en_all_fmt"},
     ("proto/parserecv.py", "ParseRecv.frame_div_decode"): {
         1: "div_bulk_code", 4: "div_single_fmt", 8: "div_all_fmt"},
+    ("proto/parserecv.py", "ParseRecv._cmninfo_data_encode"): {1: "cmninfo_fmt"},
+    ("proto/parserecv.py", "ParseRecv._chinfo_data_encode"): {
+        1: "name_codec", 2: "chinfo_enc_prefix", 3: "chinfo_enc_suffix"},
+    ("proto/parserecv.py", "ParseRecv.frame_cmninfo_encode"): {},
+    ("proto/parserecv.py", "ParseRecv.frame_chinfo_encode"): {},
+    ("proto/parserecv.py", "ParseRecv.frame_ack_encode"): {0: "ack_fmt"},
+    ("proto/parse.py", "Parser.frame_cmninfo_decode"): {0: "cmninfo_dec_len", 1: "cmninfo_dec_fmt"},
+    ("proto/parse.py", "Parser.frame_chinfo_decode"): {
+        0: "chinfo_dec_hdr", 1: "chinfo_dec_prefix", 2: "chinfo_dec_suffix"},
+    ("proto/parse.py", "Parser.frame_ack_decode"): {0: "ack_dec_fmt"},
+    ("proto/parse.py", "Parser.frame_is_ack"): {},
+    ("proto/parse.py", "Parser.frame_is_stream"): {},
     ("intf/iintf.py", "CommInterfaceCommon.data_align"): {0: "align_pad_byte"},
     ("intf/iintf.py", "CommInterfaceCommon.write"): {},
     ("intf/iintf.py", "CommInterfaceCommon.read"): {},
@@ -227,6 +254,9 @@ DEPENDS = {
     "C01": ["SerialFrame."],
     "C02": ["SerialFrame.", "ParseRecv.recv_handle", "ParseRecv._recv_cb"],
     "C05": ["Parser.", "ParseRecv.frame_", "ParseRecv.recv_handle", "ParseRecv._recv_cb", "SerialFrame."],
+    "C06": ["ParseRecv._cmninfo", "ParseRecv._chinfo", "ParseRecv.frame_cmninfo_encode", "ParseRecv.frame_chinfo_encode",
+            "ParseRecv.frame_ack_encode", "Parser.frame_cmninfo_decode", "Parser.frame_chinfo_decode",
+            "Parser.frame_ack_decode", "SerialFrame.", "DDeviceChannelData.", "DDeviceData."],
     "C17": ["CommInterfaceCommon.", "ParseRecv.recv_handle", "SerialFrame."],
     "C19": ["DDeviceChannelData.", "DDeviceData."],
 }
@@ -458,7 +488,9 @@ def emit_frame(mods, c, status):
         "(%s, %d)" % (coq_string(n), v) for n, v in mp.enum("EParseStreamFlags")))
     for nm in ("set_data_fmt", "start_fmt", "chinfo_fmt", "enable_true_byte", "enable_false_byte",
                "start_decode_fmt", "set_decode_fmt", "en_bulk_code", "en_single_fmt", "en_all_fmt",
-               "div_bulk_code", "div_single_fmt", "div_all_fmt"):
+               "div_bulk_code", "div_single_fmt", "div_all_fmt", "cmninfo_fmt", "name_codec",
+               "chinfo_enc_prefix", "chinfo_enc_suffix", "ack_fmt", "cmninfo_dec_len", "cmninfo_dec_fmt",
+               "chinfo_dec_hdr", "chinfo_dec_prefix", "chinfo_dec_suffix", "ack_dec_fmt"):
         req.append(coq_const(nm, c[nm]))
     return {"Gen_frame.v": "\n".join(out) + "\n", "Gen_req.v": "\n".join(req) + "\n"}
 
